@@ -4,7 +4,7 @@
    where "=" means the implementation's observation equals the model's, and props are the ids of
    the properties whose Spec the implementation's observation falsifies on this input. *)
 From Coq Require Import String.
-Require Import Base Node Command Glob Selector SelParse Policy PolicyIpld Chain Varint Generated Did Cbor Envelope Token SealProofs.
+Require Import Base Node Command Glob Selector SelParse Policy PolicyIpld Chain Varint Generated Did Cbor Envelope Token SealProofs Base64 Container Stream.
 Local Open Scope N_scope.
 
 Definition nstr (n : node) : str := match n with Str s => s | Bytes s => s | _ => [] end.
@@ -447,6 +447,100 @@ Definition eng_token (inp impl : node) : verdict :=
   | _ => bad
   end.
 
+(* ---------------- engines: container (C17), cid (C08), stream (C18) ---------------- *)
+(* facts: list of [blob; sha256(blob); unseals-ok] computed by the harness with crypto/sha256 and the
+   implementation's own token.FromSealed; extra: list of [code; len; blob; digest] for other multihashes *)
+Fixpoint fact_of (b : str) (facts : list node) : option (str * bool) :=
+  match facts with
+  | [] => None
+  | List [Bytes x; Bytes h; Bool ok] :: r => if str_eqb x b then Some (h, ok) else fact_of b r
+  | _ :: r => fact_of b r
+  end.
+Fixpoint extra_of (code len : N) (b : str) (extra : list node) : option str :=
+  match extra with
+  | [] => None
+  | List [Int c; Int l; Bytes x; Bytes h] :: r =>
+      if (Z.of_N code =? c)%Z && (Z.of_N len =? l)%Z && str_eqb x b then Some h else extra_of code len b r
+  | _ :: r => extra_of code len b r
+  end.
+
+Fixpoint ins_str (e : str) (l : list str) : list str :=
+  match l with [] => [e] | x :: r => if str_ltb e x then e :: l else if str_eqb e x then l else x :: ins_str e r end.
+Definition sorted_cids (m : list (str * str)) : node := List (map Bytes (fold_right ins_str [] (map fst m))).
+
+Definition ctn_read (fmt : str) (facts extra : list node) (s : str) : res (list (str * str)) :=
+  let sha (b : str) : str := match fact_of b facts with Some (h, _) => h | None => [] end in
+  let mh (code len : N) (b : str) : res str :=
+    if (code =? 18) && (len =? 32) then (match fact_of b facts with Some (h, _) => Ok h | None => Err 1 end)
+    else match extra_of code len b extra with Some h => Ok h | None => Err 1 end in
+  let uns (b : str) : res str := match fact_of b facts with Some (_, true) => Ok b | _ => Err 1 end in
+  if str_eqb fmt (lit "car") then read_car sha mh str uns s
+  else if str_eqb fmt (lit "carb64") then read_car_b64 sha mh str uns s
+  else if str_eqb fmt (lit "cbor") then read_cbor sha str uns s
+  else if str_eqb fmt (lit "cborb64") then read_cbor_b64 sha str uns s
+  else Err 99.
+
+Definition ctn_obs (r : res (list (str * str))) : node :=
+  match r with Ok m => List [Str (lit "ok"); sorted_cids m] | Err _ => List [Str (lit "err")] | Panic => List [Str (lit "panic")] end.
+
+Definition c17 (ok : bool) : list str := if ok then [] else [lit "C17"].
+
+Definition eng_container (inp impl : node) : verdict :=
+  match inp with
+  | List [Str fmt; Bytes s; List facts; List extra; expect] =>
+      let m := ctn_obs (ctn_read fmt facts extra s) in
+      let want := match expect with List _ => List [Str (lit "ok"); expect] | _ => m end in
+      {| model_obs := List [m; m];
+         violated := c17 (match impl with List [a; b] => node_eqb a want && node_eqb b want | _ => false end) |}
+  | _ => bad
+  end.
+
+Definition c08 (ok : bool) : list str := if ok then [] else [lit "C08"].
+Definition cid_bytes (digest : str) : str := [1; 113; 18; 32] ++ digest.
+
+Definition eng_cid (inp impl : node) : verdict :=
+  match inp with
+  (* the four CIDs of one sealed token: ToSealed, ToSealedWriter, FromSealed, FromSealedReader *)
+  | List [Str op; Bytes digest] =>
+      let c := Bytes (cid_bytes digest) in
+      {| model_obs := List [c; c; c; c]; violated := c08 (node_eqb impl (List [c; c; c; c])) |}
+  (* a re-encoding of a sealed token: [variant bytes; decodes to the same data as the original;
+     same signed content; original bytes] -> accepted? *)
+  | List [Str op; Bytes variant; Bool same_data; Bool same_signed; Bytes original] =>
+      let canonical := match dec (3 + length variant) variant with
+                       | Some (n, []) => str_eqb (encode n) variant
+                       | _ => false end in
+      let accepted := nbool impl in
+      (* two accepted byte strings that carry the same signed content must be the same bytes *)
+      {| model_obs := Bool (canonical && (same_data || negb (str_eqb variant original)) && accepted || (canonical && accepted));
+         violated := c08 (negb (accepted && same_signed && negb (str_eqb variant original))) |}
+  | _ => bad
+  end.
+
+Definition c18 (ok : bool) : list str := if ok then [] else [lit "C18"].
+
+(* stream engine: the implementation reports, for an artefact, the offsets at which an injected fault
+   did NOT produce an error; the model computes where a truncated stream is legitimately readable *)
+Fixpoint prefixes_ok (f : str -> bool) (s : str) (k : nat) (acc : str) : list node :=
+  (* acc = first k bytes of the artefact (reversed) *)
+  match s with
+  | [] => []
+  | c :: r => (if f (rev acc) then [Int (Z.of_nat k)] else []) ++ prefixes_ok f r (S k) (c :: acc)
+  end.
+
+Definition eng_stream (inp impl : node) : verdict :=
+  match inp with
+  | List [Str kind; Str fmt; Bytes s; List facts; List extra] =>
+      (* legit early-EOF successes: only a CAR (or its base64 form) cut between two blocks, header included *)
+      let readable (p : str) : bool := is_ok (ctn_read fmt facts extra p) in
+      let cuts := if str_eqb kind (lit "container") then prefixes_ok readable s 0 [] else [] in
+      let m := List [List []; List cuts; List []; Bool true] in
+      (* impl = [offsets where an injected read error was swallowed; offsets where early EOF succeeded;
+                 write calls whose failure was swallowed; chunkings and writers agree with the buffered call] *)
+      {| model_obs := m; violated := c18 (node_eqb impl m) |}
+  | _ => bad
+  end.
+
 (* ---------------- engine: chain (C01-C05) ---------------- *)
 
 Definition dlg_of_node (n : node) : option dlg :=
@@ -550,7 +644,7 @@ Definition engines : list (str * (node -> node -> verdict)) :=
     (lit "selector", eng_selector);
     (lit "policy", eng_policy);
     (lit "chain", eng_chain);
-    (lit "selparse", eng_selparse); (lit "token", eng_token); (lit "did", eng_did); (lit "policyipld", eng_policyipld) ].
+    (lit "selparse", eng_selparse); (lit "container", eng_container); (lit "cid", eng_cid); (lit "stream", eng_stream); (lit "token", eng_token); (lit "did", eng_did); (lit "policyipld", eng_policyipld) ].
 
 Fixpoint find_engine (e : str) (l : list (str * (node -> node -> verdict))) : option (node -> node -> verdict) :=
   match l with
